@@ -284,6 +284,7 @@ nl_string_t* nl_string_utf8_substring(const nl_string_t *str, size_t char_start,
     size_t current_char = 0;
     size_t i = 0;
     bool found_start = false;
+    bool found_end = false;
     
     while (i < str->length && current_char <= char_start + char_length) {
         if (current_char == char_start) {
@@ -292,6 +293,7 @@ nl_string_t* nl_string_utf8_substring(const nl_string_t *str, size_t char_start,
         }
         if (current_char == char_start + char_length) {
             byte_end = i;
+            found_end = true;
             break;
         }
         
@@ -301,7 +303,7 @@ nl_string_t* nl_string_utf8_substring(const nl_string_t *str, size_t char_start,
     }
     
     if (!found_start) return nl_string_with_capacity(0);
-    if (byte_end == 0) byte_end = str->length;
+    if (!found_end) byte_end = str->length;
     
     return nl_string_substring(str, byte_start, byte_end - byte_start);
 }
